@@ -12,7 +12,7 @@ import itertools
 import json
 import re
 
-from .. import core, coverage, emit, guards, vt
+from .. import inline, core, coverage, emit, guards, vt
 
 PY_TOKENS = [
     ('List[', ('typing', 'List')), ('Dict[', ('typing', 'Dict')), ('Optional[', ('typing', 'Optional')), ('Literal[', ('typing', 'Literal')),
@@ -209,6 +209,7 @@ def run(ctx, rep):
     n = pair_tokens(ctx, rep, T, 'swift', SWIFT_TOKENS, 'store', set())
     rep.floor('H2', 'swift: helper-token occurrences', n, 1)
     python_typevars(ctx, rep, T)
+    python_translation_keys(ctx, rep, T)
     scala_scan(ctx, rep, T)
     flush(ctx, rep, T)
 
@@ -292,6 +293,33 @@ def scala_scan(ctx, rep, T):
     txt = json.dumps(f['lets']) + json.dumps(f['tail'])
     for what, needle in (('alias targets', 'aliases'), ('struct fields', 'structs'), ('enum variants', 'enums')):
         rep.check(f'"{needle}"' in txt, 'H3', f'scala:scan-covers:{what}', 'scanned', f'scala: the scan never looks at {what}', site)
+
+
+def python_translation_keys(ctx, rep, T):
+    """H5: the set of types whose JSON translation helpers are written out is keyed by what the look-up at flush time
+    understands: every `types_for_custom_json_translation.insert(X)` happens under `json_translation_for_type(X)` being Some
+    for that very X (a wrapped spelling such as `Optional[datetime]` is not a key: the helpers would be used but never defined)."""
+    fns = inline.file_views(ctx, 'language/python.rs')
+    n = 0
+    for f in fns:
+        for c in f['calls']:
+            if c.get('f') != 'insert' or 'types_for_custom_json_translation' not in vt.show(c.get('recv')) or not c.get('args'):
+                continue
+            n += 1
+            x = vt.ckey(c['args'][0])
+            tests = []
+            for fr in c['guard']:
+                if fr.get('k') == 'if' and not fr.get('neg'):
+                    for y in vt.walk(vt.unvar(fr.get('c'))):
+                        if y.get('k') == 'call' and str(y.get('f', '')).split('::')[-1] == 'json_translation_for_type' and y.get('args'):
+                            tests.append(vt.ckey(y['args'][0]))
+                if fr.get('k') == 'arm' and any(str(v2).endswith('Some') for v2 in fr.get('variants', [])):
+                    for y in vt.walk(vt.unvar(fr.get('scrut'))):
+                        if y.get('k') == 'call' and str(y.get('f', '')).split('::')[-1] == 'json_translation_for_type' and y.get('args'):
+                            tests.append(vt.ckey(y['args'][0]))
+            ok = x in tests
+            rep.check(ok, 'H5', f"python:{f['name']}:translation-key#{n}", 'registered under the key that was looked up', f"python: {f['qual']} registers `{vt.show(c['args'][0])[:80]}` for JSON translation helpers, but the helper table was consulted for {'a different value' if tests else 'nothing'} on that path — at flush time json_translation_for_type(<registered text>) finds no entry, so BeforeValidator/PlainSerializer name functions the module never defines", {'file': f['file'], 'line': c.get('line')})
+    rep.floor('H5', 'python: translation registrations', n, 2)
 
 
 def flush(ctx, rep, T):
